@@ -1,0 +1,10 @@
+//go:build verif
+
+package mpb
+
+import "github.com/vbauerster/mpb/v8/internal"
+
+// SetVerifHook installs fn as the hook called at every internal.Gate.
+func SetVerifHook(fn func(point string, args ...interface{})) {
+	internal.VerifHook = fn
+}
